@@ -330,3 +330,41 @@ func vfASCII() byte {
 	vfAssume(c < 0x80)
 	return c
 }
+
+// sample non-ASCII characters (2, 3, 4 bytes; the last two have ASCII lower-case forms)
+var vfWideSamples = []string{"é", "世", "𝄞", "İ", "K"}
+
+// vfExprChar appends one character of an "expressible" string: a symbolic
+// ASCII byte (never NUL or CR) or one of the sample multi-byte characters.
+func vfExprChar(buf []byte, wide int) []byte {
+	k := vfChoice(1 + wide)
+	if k == 0 {
+		c := vfByte()
+		vfAssume(c < 0x80)
+		vfAssume(c != 0)
+		vfAssume(c != '\r')
+		return append(buf, c)
+	}
+	return append(buf, vfWideSamples[k-1]...)
+}
+
+// vfExprString builds a string of exactly n expressible characters.
+func vfExprString(n, wide int) string {
+	var buf []byte
+	for i := 0; i < n; i++ {
+		buf = vfExprChar(buf, wide)
+	}
+	return string(buf)
+}
+
+// vfNoteRunes records a label and a list of code points (no UTF-8 encoding involved).
+func vfNoteRunes(label string, rs []rune) {
+	txt := label + " ["
+	for i, r := range rs {
+		if i > 0 {
+			txt += " "
+		}
+		txt += fmt.Sprint(int64(r))
+	}
+	vfNotes = append(vfNotes, txt+"]")
+}
